@@ -2,8 +2,8 @@
 """usage: tools/seedkeep.py PROP VARIANT 'needs ...' 'caught-by ...' exitcode  -> /verif/seeded/PROP-VARIANT/"""
 import sys, os, shutil, json
 prop, var, needs, caught, rc = sys.argv[1:6]
-src = "/tmp/seeded_out/%s/%s" % (prop, var)
-dst = "/verif/seeded/%s-%s" % (prop, var)
+src = "/tmp/seeded2/%s/%s" % (prop, var)
+dst = "/verif/seeded/%s-r2%s" % (prop, var)
 os.makedirs(dst, exist_ok=True)
 for f in ("patch.diff", "demo.py", "notes.md"):
     if os.path.exists(os.path.join(src, f)):
